@@ -981,4 +981,10 @@ theorem true_verdict_records_nothing (table : List BuiltinMsg) (v : V) (e : View
   cases hv'
   exact hnone (hiff.1 ht)
 
+/-- **note_warning**: a validator reporting through `note_warning` does to the warnings list
+    exactly what it would do to the errors list through `note_error` — so `messages`,
+    `messages_total` and `false_verdict_records_one` hold verbatim for warnings -/
+theorem warn_eq_error (table : List BuiltinMsg) (v : V) (e : View) (l : List Str) :
+    runWarnWith table v e l = runWith table v e l := rfl
+
 end Flatland.C15.Proofs
